@@ -370,7 +370,6 @@ type pairRun struct {
 	ent  int
 	res  execResult
 	skip bool
-	slow bool // took more than 300 ms in pass 1: measured and profiled in one further execution
 }
 
 type batchCase struct {
@@ -448,9 +447,7 @@ func (w *workerState) runJob(j *Job) error {
 			e := w.es[r.ent]
 			pkt := c.pkt(e)
 			w.announce(j.Seq, c.idx, r.ent, 1, len(pkt))
-			t0 := time.Now()
 			r.res = execEntry(e, pkt)
-			r.slow = time.Since(t0) > 300*time.Millisecond
 		}
 		m1 := w.totalAlloc()
 		w.announce(j.Seq, batch[len(batch)-1].idx, -1, 0, 0)
@@ -499,13 +496,9 @@ func (w *workerState) runJob(j *Job) error {
 			w.announce(j.Seq, c.idx, r.ent, 2, len(pkt))
 			var d uint64
 			site := ""
-			if r.slow {
-				_, d, site = w.measureProfiled(e, pkt)
-			} else {
-				a0 := w.totalAlloc()
-				execEntry(e, pkt)
-				d = w.totalAlloc() - a0
-			}
+			a0 := w.totalAlloc()
+			execEntry(e, pkt)
+			d = w.totalAlloc() - a0
 			if d > sum.MaxAlloc {
 				sum.MaxAlloc = d
 			}
@@ -577,7 +570,10 @@ func (w *workerState) runExplicit(j *Job) error {
 	}
 	w.announce(j.Seq, j.Lo, ei, 2, len(pkt))
 	t := time.Now()
-	res, delta, site := w.measureProfiled(e, pkt)
+	a0 := w.totalAlloc()
+	res := execEntry(e, pkt)
+	delta := w.totalAlloc() - a0
+	site := ""
 	r := &ExplicitResult{Entry: e.name, Len: len(pkt), Outcome: "ok", Alloc: delta, Budget: budget(len(pkt)), Micros: time.Since(t).Microseconds(), Label: label}
 	switch {
 	case res.pan != nil:
@@ -587,6 +583,8 @@ func (w *workerState) runExplicit(j *Job) error {
 		r.Outcome, r.Err = "rejected", res.err.Error()
 	}
 	if res.pan == nil && r.Alloc > r.Budget {
+		w.announce(j.Seq, j.Lo, ei, 3, len(pkt))
+		site = w.allocSite(e, pkt)
 		r.AllocSite = site
 		r.Sig = fmt.Sprintf("alloc-amplification:%s:%s", e.class, r.AllocSite)
 	}
